@@ -551,6 +551,11 @@ def generate(unit, template_path, repo=None, canary=False):
                         inserts.append((open_b, '\n' + ltxt.rstrip() + '\n', ('contract', fi.name, f'loop {k}')))
             for pkv, sd in body_inserts:
                 ptxt = '\n'.join(l for l, _ in sd.body)
+                for l, no in sd.body:
+                    lm = LABEL_RE.match(l)
+                    if lm:
+                        lprops = set(x.strip() for x in (lm.group(2) or '').split(',') if x.strip())
+                        fi.labels.append(('assert', None, lm.group(1), lprops or props, no))
                 st = sig(lex(body))
                 if 'before' in pkv or 'after' in pkv:
                     key = 'before' if 'before' in pkv else 'after'
@@ -757,6 +762,9 @@ def _index_obligations(g):
             elif sec in ('invariant', 'invariant_except_break'):
                 oid = f'{g.unit}::{fi.name}::loop{loop}:inv:{label}'
                 kind = 'inv'
+            elif sec == 'assert':
+                oid = f'{g.unit}::{fi.name}::assert:{label}'
+                kind = 'assert'
             else:
                 continue
             if oid in seen:
